@@ -21,6 +21,10 @@ RELEX = {'EscapedString', 'BlockComment', 'InlineComment', 'Date', 'Number', 'Ac
          'TransactionFlag', 'PostingFlag'}
 
 
+def _norm(v):
+    return v.date() if isinstance(v, datetime.datetime) else v
+
+
 def readback(p, t, attr, val, pre_attrs, new):
     """None, or what is wrong with the text the assignment produced (see the call site)."""
     try:
@@ -34,7 +38,7 @@ def readback(p, t, attr, val, pre_attrs, new):
             return f'raw_text reads back {new!r} after assigning {val!r}'
         if hasattr(t, 'value') and type(t).__name__ in RELEX:
             again = p.parse_token(new, type(t))
-            if again.value != t.value or (isinstance(t, models.BlockComment) and again.indent != t.indent):
+            if _norm(again.value) != _norm(t.value) or (isinstance(t, models.BlockComment) and again.indent != t.indent):
                 return f'raw text {new!r} re-lexes to value {again.value!r}, the token says {t.value!r}'
     except Exception as e:
         return f'reading back / re-lexing {new!r} raised {type(e).__name__}: {str(e)[:80]}'
@@ -55,6 +59,8 @@ def domain_assignments(rng, t):
         out += [('value', rng.choice(['', 'n', 'a;b', 'x  y']))]
     elif n == 'Date':
         out += [('value', datetime.date(rng.randrange(1, 9999), rng.randrange(1, 13), rng.randrange(1, 29)))]
+        if rng.random() < 0.25:    # every datetime.date is in the domain, also one that carries a time of day
+            out[-1] = ('value', datetime.datetime(rng.randrange(1, 9999), rng.randrange(1, 13), rng.randrange(1, 29), rng.randrange(24), rng.randrange(60), rng.randrange(60)))
         out += [('raw_text', rng.choice(['2020-1-2', '2021/03/04', '0001-01-01']))]
     elif n == 'Number':
         out += [('value', decimal.Decimal(rng.choice(['0', '1', '12.50', '1000000', '0.0001', '1E+3', '1E-7'])))]
